@@ -4,11 +4,12 @@ from common import Model, Impl
 PROP = "C09"
 LEVEL = "proof"
 NAMES = ["commit-loose", "commit-packed-start", "add-objects-then-ref", "add-pack-then-ref", "set-ref-packed-start", "delete-loose", "delete-packed",
-         "delete-stale-packed", "pack-refs", "pack-refs-stale-packed", "pack-loose-objects", "repack", "gc-prune", "gc-repack-packed-start"]
+         "delete-stale-packed", "locked-ref-delete-stale-packed", "pack-refs", "pack-refs-stale-packed", "pack-loose-objects", "repack", "gc-prune", "gc-repack-packed-start",
+         "fsync-add-pack-then-ref", "fsync-thin-pack-then-ref", "fsync-commit-loose"]
 
 
 def run(rep):
-    rep.extra["rule"] = ("14 scenarios (commit from loose and packed starting states, objects then ref, add_pack then ref, ref update over packed-refs, "
+    rep.extra["rule"] = ("18 scenarios (commit from loose and packed starting states, objects then ref, add_pack then ref, ref update over packed-refs, "
                          "ref deletion loose / packed / loose over stale packed, pack_refs, pack_loose_objects, repack, garbage_collect with prune): "
                          "the operation runs under the scheduler and the repository directory is copied after every os-level call (open, "
                          "replace, rename, remove, fsync, mkdir, rmdir, link, utime, chmod) and every write / flush / close of a file; every copy "
@@ -16,6 +17,8 @@ def run(rep):
                          "objects, every object readable before must still be, index and configuration must parse; the sequence of distinct "
                          "visible states (readable objects, resolved refs) must equal the model's sequence for the operation.  Process-crash "
                          "model: what is copied is what completed system calls left on disk; data still in user-space buffers is absent.  "
+                         "Power-loss model (three scenarios with core.fsyncObjectFiles = true): in addition every file written since the "
+                         "operation began is cut back to the content it had at its last fsync (empty if never synced; renames durable).  "
                          "distinct non-trivial = snapshots")
     rep.trusted += ["harness/sched.py interposition and the directory copy as the crash image"]
     impl = Impl(PROP, case_timeout=900)
@@ -34,10 +37,11 @@ def run(rep):
         for sn in r["snaps"]:
             nsnap += 1
             rep.case("snapshot:" + q["name"], key=(q["name"], sn["k"]), nontrivial=True, outcome=sn["state"], sample={"scenario": q["name"], "after_call": sn["k"], "call": sn["after"]})
+            kind = "power loss" if sn.get("power_loss") else "crash"
             for p in sn["problems"]:
-                rep.fail("crash-inconsistent:" + q["name"], "crash after call %d (%s) of %s: %s" % (sn["k"], sn["after"], q["name"], p),
-                         {"scenario": q["name"], "after_call": sn["k"], "call": sn["after"], "state": sn["state"]})
-            if not states or states[-1] != sn["state"]:
+                rep.fail(("power-loss" if sn.get("power_loss") else "crash") + "-inconsistent:" + q["name"], "%s after call %d (%s) of %s: %s" % (kind, sn["k"], sn["after"], q["name"], p),
+                         {"scenario": q["name"], "after_call": sn["k"], "call": sn["after"], "state": sn["state"], "model": kind})
+            if not sn.get("power_loss") and (not states or states[-1] != sn["state"]):
                 states.append(sn["state"])
         if r["model"]:
             c, l, p = r["initial"]
